@@ -151,6 +151,7 @@ def check_c04(run: Run, prog: Program) -> None:
     n5 = kinds.rule_K5(run, prog)
     kinds.rule_K6(run, prog)
     run.stats["tolerance_arguments"] = kinds.rule_K8(run, prog)
+    run.stats["flattening_calls"] = kinds.rule_K9(run, prog)
     if getattr(run, "focus", None) in (None, "E16"):
         from geolint import indexing
 
@@ -464,6 +465,9 @@ def check_c05(run: Run, prog: Program) -> None:
 
     if getattr(run, "focus", None) in (None, "E14"):
         run.stats["diagram_shapes"] = diagram.rule_E14(run, prog)
+    from geolint import kinds as _kinds
+
+    run.stats["narrow_accumulations"] = _kinds.rule_K10(run, prog)
     sites = _error_rules(run, prog, "TensorComputationError", ["TensorDiagram.add_edge", "TensorDiagram.__init__"])
     run.floor("TensorComputationError raise sites", len(sites), 2)
     nc = purity.rule_caches(run, prog)
@@ -536,6 +540,16 @@ def check_c16(run: Run, prog: Program) -> None:
     n3 = signdom.rule_polygon(run, prog)
     run.stats.update({"sign_cases": n1, "segment_obligations": n2, "polygon_obligations": n3})
     run.floor("membership obligations (instances found, decided or not)", sum(1 for o in run.obligations if o.rule.startswith("E11.")), 3)
+    # PolygonCollection.contains / a PointCollection query: the per-edge masks must not be mixed across the rows of a collection
+    from geolint import kinds
+
+    region: set[str] = set()
+    for cname in ("SegmentTensor", "PolygonTensor", "Triangle"):
+        c_ = prog.find_cls(cname)
+        f_ = prog.lookup(c_, "contains") if c_ is not None else None
+        if f_ is not None:
+            region |= {g.qualname for g in prog.private_helpers(prog.body_of(f_))}
+    run.stats["flattening_calls"] = kinds.rule_K9(run, prog, only=region)
 
 
 @prop("C17")
